@@ -40,11 +40,12 @@ class PyrConfig(object):
 
     KINDS = ("generic", "toast", "filtered")
 
-    def __init__(self, kind, depth, apex, rejects):
+    def __init__(self, kind, depth, apex, rejects, accept=None):
         self.kind = kind
         self.depth = depth
         self.apex = apex            # Pos or None
         self.rejects = rejects      # set of Pos rejected by the user filter
+        self.accept = accept        # kind 'deep': the filter accepts exactly these positions
 
     def describe(self):
         return {
@@ -53,6 +54,7 @@ class PyrConfig(object):
             "apex": list(self.apex) if self.apex is not None else None,
             "filter_rejects": sorted(list(p) for p in self.rejects)[:40],
             "n_rejects": len(self.rejects),
+            "n_accepted": len(self.accept) if self.accept is not None else None,
         }
 
     def build(self):
@@ -60,6 +62,9 @@ class PyrConfig(object):
             p = Pyramid.new_generic(self.depth)
         elif self.kind == "toast":
             p = Pyramid.new_toast(self.depth)
+        elif self.kind == "deep":
+            accept = self.accept
+            p = Pyramid.new_toast_filtered(self.depth, lambda t: t.pos in accept)
         else:
             rejects = self.rejects
             p = Pyramid.new_toast_filtered(self.depth, lambda t: t.pos not in rejects)
@@ -70,10 +75,16 @@ class PyrConfig(object):
     # -- reference model (independent of pyramid.py's traversal code) -------
 
     def passes(self, pos):
+        if self.accept is not None:
+            return pos in self.accept
         return pos not in self.rejects
 
     def reachable_leaves(self):
         d = self.depth
+        if self.accept is not None:
+            apex = self.apex if self.apex is not None else Pos(0, 0, 0)
+            return [p for p in self.accept if p.n == d and is_desc_or_self(p, apex)
+                    and all(q in self.accept for q in path_from_level1(p))]
         apex = self.apex if self.apex is not None else Pos(0, 0, 0)
         out = []
         for x in range(2 ** d):
@@ -102,10 +113,35 @@ def thorough():
     return os.environ.get("TOASTYSIM_TIER") == "thorough"
 
 
-def draw_pyramid(ch, max_generic=4, max_toast=3, kinds=(0, 1, 2), min_depth=0):
+def draw_deep_pyramid(ch):
+    """A deep (depth 10-12) TOAST pyramid whose filter accepts only the paths to 1-3 leaves (plus a few stray
+    siblings without children): few tiles, but the code paths toasty takes for depth > 9."""
+    depth = 10 + ch.draw(3, kind="deep_depth")
+    accept = set()
+    first = None
+    for _ in range(1 + ch.draw(3, kind="deep_nleaves")):
+        p = Pos(depth, ch.draw(2 ** depth, kind="leaf_x"), ch.draw(2 ** depth, kind="leaf_y"))
+        if first is None:
+            first = p
+        for q in path_from_level1(p):
+            accept.add(q)
+    for _ in range(ch.draw(4, kind="deep_strays")):
+        lvl = 1 + ch.draw(depth, kind="stray_level")
+        q = Pos(lvl, first.x >> (depth - lvl), first.y >> (depth - lvl))
+        accept.add(Pos(lvl, q.x ^ 1, q.y))      # a sibling on the first leaf's path: accepted, children not
+    apex = None
+    if ch.draw(2, p0=0.6, kind="use_apex"):
+        n = ch.draw(depth + 1, kind="apex_n")
+        apex = Pos(n, first.x >> (depth - n), first.y >> (depth - n))
+    return PyrConfig("deep", depth, apex, set(), accept=accept)
+
+
+def draw_pyramid(ch, max_generic=4, max_toast=3, kinds=(0, 1, 2), min_depth=0, allow_deep=False):
     if thorough():
         max_generic += 1
         max_toast += 1
+    if allow_deep and ch.draw(12, kind="deep_pyramid") == 11:
+        return draw_deep_pyramid(ch)
     kind = PyrConfig.KINDS[kinds[ch.draw(len(kinds), kind="pyr_kind")]]
     maxd = max_generic if kind == "generic" else max_toast
     depth = min_depth + ch.draw(maxd - min_depth + 1, kind="depth")
